@@ -7,6 +7,7 @@
 package main
 
 import (
+	"regexp"
 	"bytes"
 	"encoding/json"
 	"fmt"
@@ -300,9 +301,12 @@ func (r *rewriter) stmt(s ast.Stmt) []ast.Stmt {
 		nameVar := ast.NewIdent(fmt.Sprintf("_vsn%d", r.goCounter))
 		assign := &ast.AssignStmt{Lhs: []ast.Expr{nameVar}, Tok: token.DEFINE, Rhs: []ast.Expr{call("BeforeGo", r.site("go"))}}
 		born := &ast.ExprStmt{X: call("Born", nameVar)}
+		// a panic in a goroutine ends the simulated process it belongs to, not the worker
+		// (only where a harness asks for it: verifsim.RecoverPanics)
+		rec := &ast.DeferStmt{Call: call("RecoverNode")}
 		if fl, ok := st.Call.Fun.(*ast.FuncLit); ok {
 			r.block(fl.Body)
-			fl.Body.List = append([]ast.Stmt{born}, fl.Body.List...)
+			fl.Body.List = append([]ast.Stmt{rec, born}, fl.Body.List...)
 			for _, a := range st.Call.Args {
 				r.exprs(a)
 			}
@@ -326,7 +330,7 @@ func (r *rewriter) stmt(s ast.Stmt) []ast.Stmt {
 		if ell.IsValid() {
 			inner.Ellipsis = 1
 		}
-		body := &ast.BlockStmt{List: []ast.Stmt{born, &ast.ExprStmt{X: inner}}}
+		body := &ast.BlockStmt{List: []ast.Stmt{rec, born, &ast.ExprStmt{X: inner}}}
 		st.Call = &ast.CallExpr{Fun: &ast.FuncLit{Type: &ast.FuncType{Params: &ast.FieldList{}}, Body: body}}
 		return []ast.Stmt{&ast.BlockStmt{List: append(pre, st, &ast.ExprStmt{X: call("Y", r.site("spawned"), &ast.BasicLit{Kind: token.STRING, Value: "\"spawned\""})})}}
 	case *ast.DeferStmt:
@@ -419,6 +423,8 @@ var netSeams = [][2]string{
 	{"exec.Command(", "verifsim.ExecCommand("},
 }
 
+var exitValue = regexp.MustCompile(`\bos\.Exit([^(\w])`)
+
 func instrumentFile(in, out string, fsRewrite, postcall, netRewrite bool) (sites []string, changed bool, err error) {
 	fset := token.NewFileSet()
 	var src any
@@ -434,6 +440,12 @@ func instrumentFile(in, out string, fsRewrite, postcall, netRewrite bool) (sites
 				txt = strings.ReplaceAll(txt, kv[0], kv[1])
 				seamed = true
 			}
+		}
+		// os.Exit taken as a value (exitFn: os.Exit): calls are rewritten on the syntax tree,
+		// a function value has to be caught here
+		if exitValue.MatchString(txt) {
+			txt = exitValue.ReplaceAllString(txt, "verifsim.Exit$1")
+			seamed = true
 		}
 		src = txt
 	}
